@@ -43,7 +43,10 @@ class Aff:
         return not self.t
 
     def __eq__(self, o):
-        o = lift(o)
+        try:
+            o = lift(o)
+        except TypeError:
+            return False
         return self.c == o.c and self.t == o.t
 
     def __hash__(self):
@@ -406,3 +409,48 @@ def equal_mod(a: Aff, b: Aff, afacts: List[Aff]) -> bool:
             if d + x + y == Aff(0):
                 return True
     return False
+
+
+def simple_aff(e, env: Dict[str, 'Aff'] = None) -> Optional[Aff]:
+    """Affine form of a plain arithmetic expression: names / attribute chains / len(x) / other
+    calls are opaque symbols (their source text); + - unary-minus and * by a constant are
+    interpreted.  None when the expression is not affine in that sense (e.g. int(a / 3))."""
+    env = env or {}
+    if isinstance(e, ast.Constant) and isinstance(e.value, int) and not isinstance(e.value, bool):
+        return Aff(e.value)
+    if isinstance(e, ast.Name):
+        return env.get(e.id, Aff.sym(e.id))
+    if isinstance(e, ast.Attribute):
+        return Aff.sym(unparse(e))
+    if isinstance(e, ast.Call):
+        if call_name(e) == 'len' and len(e.args) == 1:
+            a = e.args[0]
+            # len(x[a:]) = len(x) - a ; len(x[:b]) = b  (only for non-negative bounds; callers state this)
+            if isinstance(a, ast.Subscript) and isinstance(a.slice, ast.Slice) and a.slice.step is None:
+                lo = simple_aff(a.slice.lower, env) if a.slice.lower is not None else Aff(0)
+                if a.slice.upper is None and lo is not None:
+                    return Aff.sym(f"len({unparse(a.value)})") - lo
+            return Aff.sym(unparse(e))
+        if call_name(e) in ('int', 'float'):
+            return None
+        return Aff.sym(unparse(e))
+    if isinstance(e, ast.Subscript):
+        return Aff.sym(unparse(e))
+    if isinstance(e, ast.UnaryOp) and isinstance(e.op, ast.USub):
+        v = simple_aff(e.operand, env)
+        return None if v is None else -v
+    if isinstance(e, ast.BinOp):
+        l, r = simple_aff(e.left, env), simple_aff(e.right, env)
+        if l is None or r is None:
+            return None
+        if isinstance(e.op, ast.Add):
+            return l + r
+        if isinstance(e.op, ast.Sub):
+            return l - r
+        if isinstance(e.op, ast.Mult):
+            if l.is_const():
+                return r.scale(l.c)
+            if r.is_const():
+                return l.scale(r.c)
+        return None
+    return None
